@@ -28,16 +28,18 @@ RULE = (
 TRUSTED = [
     "Coq 8.16.1 kernel and vm_compute; theorems in Props/C01.v are closed under the global context or depend only on the "
     "float contract (section premises flt_rt / flt_tok)",
-    "hand-written models coq/Reach.v, coq/Xmi.v (writer), coq/XmiDoc.v (denotation of documents), coq/Lex.v, coq/Offsets.v; "
-    "the reader mechanism itself is modelled by the C05 builder (load_xmi_is_denotation): here the loaded CAS is compared "
-    "with the denotation of the document",
+    "hand-written models coq/Reach.v, coq/Xmi.v (writer), coq/XmiLoad.v (reader, C05), coq/XmiDoc.v (denotation of "
+    "documents), coq/Lex.v, coq/Offsets.v",
     "xml.etree.ElementTree as XML parser for the abstract documents (harness/xmlabs.py); escaping, prefixes, whitespace "
     "and the sinks are compared byte-wise by the oracle, not modelled",
     "harness/scen.py: builders through the public API and the canonical observation canon() by identity-based traversal",
     "Python repr(float) / float(str) for the float literal table; contract checked on every case",
 ]
 ASSUMPTIONS = [
-    "CAS inside wf_xmib (see C04); load_cas_from_xmi is given the type system the CAS was built with",
+    "schema and input CAS inside wf_rtb (XmiRt.v): wf_inb of C04 + the schema answers like a TypeSystem (schema_okb, "
+    "sofa_feat_okb), defines uima.cas.NULL, type names survive the reader's string surgery, the CAS has _InitialView and "
+    "indexed annotations are indexed in the view of their own sofa; load_cas_from_xmi is given the type system of the CAS",
+    "the round-trip theorem takes the success of the reader model as a hypothesis (no totality theorem for load_xmi)",
     "collections held by features without multipleReferencesAllowed are compared by content (object identity of inlined "
     "arrays / lists is not expressible in XMI); \"\" and null inside string arrays / lists are identified",
 ]
@@ -181,16 +183,19 @@ def distribution(scenarios, observations):
 
 
 MANIFEST = {
-    "level_text": "Machine-checked proof (Coq 8.16) over an executable model of the XMI writer and a declarative denotation of "
-                  "XMI documents: for every feature declaration and every well-typed value the decoding of the encoding is the "
-                  "value up to \"\"/null in string collections (all writer branches, offsets included), and the written "
-                  "document denotes the canonical content of the CAS; tied to /repo on every run: to_xmi -> "
-                  "load_cas_from_xmi -> to_xmi is executed for pretty_print x sink combinations and, inside Coq, the first "
-                  "document is compared with the model writer's, the loaded CAS with the denotation of the document and with "
-                  "the model's canonical content, and the second document with the first at the infoset level.",
-    "level_note": "The reader mechanism (two-pass parse and post-processing) is modelled under C05 (load_xmi_is_denotation); "
-                  "C01's round-trip theorem is stated over the denotation until that lemma is imported. Trusted: Coq kernel + "
-                  "vm_compute; models Reach.v/Xmi.v/XmiDoc.v/Lex.v/Offsets.v; xml.etree; harness/scen.py; float contract.",
+    "level_text": "Machine-checked proof (Coq 8.16) over executable models of the XMI writer (incl. the _find_all_fs worklist) "
+                  "and of the XMI reader and a declarative denotation of XMI documents: for every well-formed CAS the written "
+                  "document is closed, denotes the canonical content of the CAS and satisfies the premise of the reader's "
+                  "theorem, so the CAS the reader model builds from it has the same views, sofa data, feature structures under "
+                  "the same xmi:ids, values, reference targets and members (up to \"\"/null in string collections); per "
+                  "feature kind decode(encode v) = v for all writer branches, offsets included. Tied to /repo on every run: "
+                  "to_xmi -> load_cas_from_xmi -> to_xmi is executed for pretty_print x sink combinations and, inside Coq, the "
+                  "first document is compared with the model writer's, the loaded CAS with the denotation, with the model "
+                  "reader's result and with the model's canonical content, and the second document with the first (infoset).",
+    "level_note": "Partial: the reader's success is a hypothesis of the round-trip theorem (no totality theorem for the reader "
+                  "model) and `re-save gives the identical document` is proved only as `same denotation, both closed`; both are "
+                  "evaluated on every case. Trusted: Coq kernel + vm_compute; models Reach.v/Xmi.v/XmiLoad.v/XmiDoc.v/Lex.v/"
+                  "Offsets.v; xml.etree; harness/scen.py; float contract.",
     "technique": "Coq proof over an executable Gallina model + in-Coq behavioural correspondence + byte-level oracle for sinks",
     "design_ref": "DESIGN.md section 5, C01; section 4.4",
 }
